@@ -403,6 +403,9 @@ class PyFatFS(FS):
             self.fs.free_cluster_chain(dir_entry.get_cluster())
         del dir_entry
 
+        # Flush FAT(s) to disk
+        self.fs.flush_fat()
+
     def openbin(self, path: str, mode: str = "r",
                 buffering: int = -1, **options):
         """Open file from filesystem.
